@@ -22,6 +22,13 @@ def bind {V : Type} (c : List Nat) (v : V) (d : Dict V) : Dict V :=
 def bindAll {V : Type} (d : Dict V) (h : List (List Nat × V)) : Dict V :=
   h.foldl (fun d cv => bind cv.1 cv.2 d) d
 
+/-- the answer of a dictionary to a (non-empty) chord: its value if it is bound, "more keys" if it is a proper
+    prefix of a bound chord, failure otherwise -/
+def answer {V : Type} (d : Dict V) (q : List Nat) : SurfModel.KeyMap.Res V :=
+  match d.find? (fun e => e.1 == q) with
+  | some e => .success e.2
+  | none => if d.any (fun e => q.isPrefixOf e.1) then .continue_ else .failure
+
 /-- reading of "bound and not superseded" directly on the history: `q ↦ w` was registered at some point and no
     later registration was of a chord that is a prefix or an extension of `q` (or `q` itself) -/
 def Live {V : Type} (h : List (List Nat × V)) (q : List Nat) (w : V) : Prop :=
@@ -66,5 +73,72 @@ def Seg.expect {V : Type} (d : Dict V) : Seg → List (Option V) → Prop
 def expectAll {V : Type} (d : Dict V) : List Seg → List (Option V) → Prop
   | [], outs => outs = []
   | s :: rest, outs => ∃ o1 o2, outs = o1 ++ o2 ∧ s.expect d o1 ∧ expectAll d rest o2
+
+end SurfProofs.C18
+
+namespace SurfProofs.C18
+open SurfModel.KeyMap
+
+/-- the answer a list of bindings imposes on a chord `q`, on top of an earlier answer `old`: bound → its value;
+    proper prefix of a bound chord → more keys needed; extension of a bound chord → failure; unrelated to all of
+    them → the earlier answer stands -/
+def overlay {V : Type} (l : Dict V) (old : Res V) (q : List Nat) : Res V :=
+  match l.find? (fun e => e.1 == q) with
+  | some e => .success e.2
+  | none =>
+    if l.any (fun e => q.isPrefixOf e.1) then .continue_
+    else if l.any (fun e => e.1.isPrefixOf q) then .failure
+    else old
+
+end SurfProofs.C18
+
+/-! ## line protocol of the specification (`c18 spec <op> …`)
+
+The same scripts as `c18 km`, restricted to what the specification speaks about, run on two dictionaries:
+`ra=<chord>=<v>` / `rb=…` (`bind`, answer `r`), `o` (`bindAll` of the other dictionary), `c` (empty dictionary),
+`e` / `eb` (the dictionary, sorted by the wire text of the chords for comparison), `l=<chord>` (`answer`).  The harness sends what the
+implementation answered as the expected answers of an *oracle* line. -/
+namespace SurfProofs.C18
+open SurfModel.KeyMap
+
+/-- enumeration in a canonical order that does not depend on any ordering of keys: by the wire text of the chord -/
+def insertSorted (e : String × Nat) : List (String × Nat) → List (String × Nat)
+  | [] => [e]
+  | x :: r => if e.1 < x.1 then e :: x :: r else x :: insertSorted e r
+
+def showSortedDict (st : St) (d : Dict Nat) : String :=
+  let l := (d.map fun e => (st.showChord e.1, e.2)).foldr insertSorted []
+  ";".intercalate (l.map fun e => s!"{e.1}={e.2}")
+
+structure SpecSt where
+  st : St := {}
+  da : Dict Nat := []
+  db : Dict Nat := []
+
+def specStep (s : SpecSt) (op : String) : SpecSt × String :=
+  match op.splitOn "=" with
+  | ["ra", c, v] =>
+    match readChord c, v.toNat? with
+    | some c, some v => let (st, c) := s.st.intern c; ({ s with st := st, da := bind c v s.da }, "r")
+    | _, _ => (s, "bad-op")
+  | ["rb", c, v] =>
+    match readChord c, v.toNat? with
+    | some c, some v => let (st, c) := s.st.intern c; ({ s with st := st, db := bind c v s.db }, "r")
+    | _, _ => (s, "bad-op")
+  | ["l", c] =>
+    match readChord c with
+    | some c => let (st, c) := s.st.intern c; ({ s with st := st }, showRes (answer s.da c))
+    | none => (s, "bad-op")
+  | ["e"] => (s, s!"[{showSortedDict s.st s.da}]")
+  | ["eb"] => (s, s!"[{showSortedDict s.st s.db}]")
+  | ["o"] => ({ s with da := bindAll s.da s.db }, "o")
+  | ["c"] => ({ s with da := [] }, "c")
+  | _ => (s, "bad-op")
+
+def specRun : SpecSt → List String → List String → List String
+  | _, [], acc => acc.reverse
+  | s, op :: ops, acc => let r := specStep s op; specRun r.1 ops (r.2 :: acc)
+
+def specHandle (ops : List String) : String := " ".intercalate (specRun {} ops [])
 
 end SurfProofs.C18
